@@ -314,20 +314,47 @@ PROPS["C12"] = dict(
 )
 
 
+def nt_ng(st):
+    return int(st.get("nogoods", 0)) >= 2 and int(st.get("conflicts", 0)) + int(st.get("concluded", 0)) >= 1
+
+
+PROPS["C18"] = dict(
+    level_text="Machine-checked proof (Lean 4), for EVERY history of add_ng calls and mode switches from new(n) and every partial interpretation, about a line-by-line model of the repaired "
+               "NoGoodStore (n+1 buckets indexed by size, the three duplicate-elimination modes, try_from_pair_iter dropping a contradictory bucket, disjunction, the is_violating scan, "
+               "conclusion_closure with its loop): the store invariant (C18.store_invariant), the add semantics for each mode and for whole histories incl. the empty nogood - the set of total "
+               "assignments excluded by the store equals the set excluded by the ADDED nogoods (add_semantics, history_semantics, empty_nogood_excludes_everything, added_covered, stored_added); "
+               "conclusions contain the input and only forced literals (conclusions_sound, conclude_sound); a conflict only if no total extension avoids all added nogoods (conflict_sound) and always "
+               "when the interpretation matches an added one (conflict_direct); the same for the closure with termination (closure_sound, closure_direct, closure_terminates) and the unit-flip law "
+               "the search relies on (closure_flip); the unrepaired code violates the theorems on the witnesses of D8a, D8b, D10 (unrepaired_*). The brute-force specification that judges the "
+               "IMPLEMENTATION's answers is proved to mean the property and the model is proved to pass it (spec_*_meaning, model_passes_spec). Tie to the code: add_ng / conclusions / "
+               "conclusion_closure (hook) / store dumps (hook) on generated histories, compared with the model and judged by the specification.",
+    level_note="Trusted: Lean kernel + standard axioms; RoaringBitmap pairs modelled as List (Option Bool); hooks verif_conclusion_closure / verif_dump; the tie is differential (<= 8 variables, <= 8 nogoods); "
+               "clauses that belong to the closure's contract with the search (unit flip, progress, update flag) are reported on the correspondence channel, not as C18 failures.",
+    technique="Lean 4 proof (history induction on the bucketed store; line-by-line model proved equal to the verified one) + correspondence check + verified brute-force specification applied to the implementation's answers",
+    jobs=[Job("ng", 20000, 400000, size=6, size_thorough=8,
+              relevant=heads("ngadd", "ngconcl", "ngclosure", "ngdump", "nogoodcheck"), nontrivial=nt_ng)],
+    rule="histories of 0-8 add_ng over 0-6 variables (empty, full-length, nested, duplicate, subsuming, complementary nogoods), all three modes with switches mid-history, interpretations incl. "
+         "matching / almost-matching / total ones; store dump after every add, conclusions and conclusion_closure answers judged by the brute-force specification and compared with the model; "
+         "non-trivial = distinct history with >= 2 nogoods and >= 1 conflict or conclusion",
+    assumptions=["nogoods/interpretations are vectors of the store's width (add_ng panics beyond: stated precondition)"],
+)
+
+
 # ----------------------------------------------------------------------------------------------
 
 def case_hash(reqs):
     return hashlib.sha1("\n".join(reqs[1:]).encode()).hexdigest()[:16]
 
 
+CHUNK = 25000
+
+
 def run_job(prop, job, tier, seed, fset, factor=1):
-    """-> dict(mism, cases, evaluations, nontrivial_hashes, samples, status, dist)"""
+    """-> dict(mism, cases, records, nontrivial, distinct, samples, status, dist); large runs are
+    processed in chunks (one generator seed per chunk) to bound memory"""
     harness = R.harness_path(fset)
     cases = (job.quick if tier == "quick" else job.thorough) * factor
     size = job.size if tier == "quick" else job.size_thorough
-    rc, reqs, err = R.run([harness, "gen", job.family, str(seed), str(cases), str(size)] + job.extra, timeout=600)
-    if rc != 0:
-        raise RuntimeError("generator failed: " + err[-500:])
     # corpus of minimised past failures first
     corpus = ""
     cdir = os.path.join(R.VERIF, "corpus", prop)
@@ -335,7 +362,34 @@ def run_job(prop, job, tier, seed, fset, factor=1):
         for f in sorted(os.listdir(cdir)):
             if f.endswith(".case"):
                 corpus += open(os.path.join(cdir, f)).read().rstrip("\n") + "\n"
-    return run_requests(prop, job, harness, corpus + reqs, job.timeout * (3 if tier == "thorough" else 1) * factor)
+    total = None
+    done = 0
+    k = 0
+    while done < cases:
+        nk = min(CHUNK, cases - done)
+        sk = seed if k == 0 else seed * 100003 + k
+        rc, reqs, err = R.run([harness, "gen", job.family, str(sk), str(nk), str(size)] + job.extra, timeout=1200)
+        if rc != 0:
+            raise RuntimeError("generator failed: " + err[-500:])
+        res = run_requests(prop, job, harness, (corpus if k == 0 else "") + reqs,
+                           job.timeout * (3 if tier == "thorough" else 1) * factor)
+        if total is None:
+            total = res
+        else:
+            total["mism"] += res["mism"]
+            total["cases"] += res["cases"]
+            total["records"] += res["records"]
+            total["nontrivial"] |= res["nontrivial"]
+            total["distinct"] |= res["distinct"]
+            for kk, v in res["dist"].items():
+                total["dist"][kk] = total["dist"].get(kk, 0) + v
+            if res["status"] != "ok":
+                total["status"] = res["status"]
+        done += nk
+        k += 1
+        if len(total["mism"]) > 200:
+            break
+    return total
 
 
 def run_requests(prop, job, harness, reqs, timeout):
